@@ -1,5 +1,5 @@
 CONSTANT Nodes <- ObsNodes
 INIT OInit
 NEXT ONext
-INVARIANTS FIFO Contiguous RedeliverFirst AllOrNothing LenBound Drained
+INVARIANTS FIFO Contiguous RedeliverFirst AllOrNothing LenBound Drained OnlyAborts
 CHECK_DEADLOCK FALSE
